@@ -33,7 +33,16 @@ ROS_S = ["ip", "address", "interface", "bridge", "port", "system", "user", "snmp
 ROS_L = ["add a=1", "add b=2 c=3", "set x=y", "add name=q", "set [ find default=yes ] disabled=yes", "add chain=input action=accept"]
 
 
+KEYWORD_ROWS = {   # rows that are keywords of the vendor's own syntax elsewhere, legal as ordinary nested lines
+    "nokia": ["configure", "exit", "info"], "juniper": ["configure", "exit", "top"], "ribbon": ["configure", "exit"],
+    "huawei": ["return", "system-view"], "h3c": ["return"], "pc": ["exit", "configure"], "routeros": [],
+}
+
+
 def _row(rnd, vendor):
+    kw = KEYWORD_ROWS.get(vendor)
+    if kw and rnd.chance(6):
+        return rnd.choice(kw)
     n = rnd.randint(1, 4)
     ws = [rnd.choice(W) for _ in range(n)]
     row = " ".join(ws)
@@ -46,6 +55,8 @@ def _gen(rnd, vendor, d=0, maxd=4):
     t = odict()
     for _ in range(rnd.randint(1, 4)):
         row = _row(rnd, vendor)
+        if vendor == "nokia" and d == 0 and row == "configure":
+            row = "configure x"   # a TOP-LEVEL 'configure' is the wrapper the nokia splitter strips by design; nested ones are ordinary rows
         t[row] = _gen(rnd, vendor, d + 1, maxd) if d < maxd and rnd.chance(45) else odict()
         if vendor == "cisco" and row.startswith("address-family"):
             # IOS domain: an address-family section is closed by exit-address-family (its last child); the splitter relies on it
@@ -60,11 +71,15 @@ def _gen_ros(rnd, d=0):
     if d > 0 and leaf_first:
         for l in rnd.sample(ROS_L, rnd.randint(1, 2)):
             t[l] = odict()
+    prev = None
     for s in rnd.sample(ROS_S, rnd.randint(1, 3)):
-        if d < 2 and rnd.chance(50):
+        if prev is not None and rnd.chance(30):
+            t[s] = _to_odict(plain(prev))   # sibling sections with equal content (e.g. the same firewall rules under ip and ipv6)
+        elif d < 2 and rnd.chance(50):
             t[s] = _gen_ros(rnd, d + 1)
         else:
             t[s] = odict((l, odict()) for l in rnd.sample(ROS_L, rnd.randint(1, 3)))
+        prev = t[s]
     if d > 0 and not leaf_first and rnd.chance(35):
         for l in rnd.sample(ROS_L, rnd.randint(1, 2)):
             t.setdefault(l, odict())
